@@ -3310,7 +3310,9 @@ impl Bindgen for FunctionBindgen<'_, '_> {
                     let name = self.r#gen.r#gen.type_name(&Type::Id(*ty));
                     let op0 = &operands[0];
                     let op1 = &operands[1];
-                    results.push(format!("(({name}) ({op0})) | ((({name}) ({op1})) << 32)"));
+                    results.push(format!(
+                        "(({name}) (uint32_t) ({op0})) | ((({name}) (uint32_t) ({op1})) << 32)"
+                    ));
                 }
             },
 
